@@ -107,6 +107,47 @@ pub fn run(reg: &dyn Registry, ctx: &Ctx) -> Outcome {
         })
         .collect();
 
+    // the same public read position reached after different numbers of blocks: the text may depend on the
+    // buffer index (public), not on how many blocks were generated before
+    {
+        let mut types2: Vec<&'static dyn GenType> = reg.types().into_iter().filter(|t| t.info().hides_state && t.info().block_words.is_some()).collect();
+        types2.extend(reg.core_types());
+        for ty in types2 {
+            let info = ty.info();
+            let is_core = info.family == Family::Core;
+            let b = if is_core { 1 } else { info.block_words.unwrap() };
+            let native = if info.word_bits == 32 || is_core { Op::U32 } else { Op::U64 };
+            let seed = alphabet::bg_bytes(ctx.seed, 0x17C, info.seed_len);
+            for w in [0usize, 1, b / 2, b - 1] {
+                let mut texts: Vec<(usize, (String, String))> = Vec::new();
+                for blocks in [0usize, 1, 2, 7, 300] {
+                    if is_core && w != 0 {
+                        continue;
+                    }
+                    // position (w mod b) after `blocks` whole blocks; w = 0 with blocks = 0 is the fresh generator,
+                    // whose index differs (block not yet generated), so start from one block there
+                    let words = w + b * (blocks + if w == 0 { 1 } else { 0 });
+                    let mut g = ty.from_seed(&seed);
+                    for _ in 0..words {
+                        apply(&mut g, &native);
+                    }
+                    ctx.add("states", 1);
+                    texts.push((words, (g.debug(false), g.debug(true))));
+                }
+                for k in 1..texts.len() {
+                    if texts[k].1 != texts[0].1 {
+                        ctx.violation(
+                            &format!("C17:{}:state-dependent", info.name),
+                            &format!("{}: Debug text at the same buffer position differs after {} and after {} native words: {:?} vs {:?}", info.name, texts[0].0, texts[k].0, texts[0].1 .0, texts[k].1 .0),
+                            json!({"kind":"debug","type":info.name,"seed":hex(&seed),"ops":ops_json(&vec![native.clone(); texts[k].0])}),
+                        );
+                        break;
+                    }
+                }
+            }
+        }
+    }
+
     // value-directed states of the one state-hiding generator whose state is the seed itself: XorShiftRng
     // states that have, or reach after one or two steps, a special word pattern (a zero word, equal words,
     // words summing to zero, ...): the text must be the one every other seed gives at the same position
